@@ -274,7 +274,7 @@ theorem placeBefore_perm {f : Forest} {ref : Nat} (t : HTree) (nd : f.allHandles
     refine List.Perm.append_left _ (List.Perm.append_left _ ?_)
     refine List.perm_append_comm.trans ?_
     simp only [List.append_assoc]
-    exact List.Perm.append_left _ (List.Perm.append_left _ List.perm_append_comm)
+    exact List.Perm.refl _
 
 theorem handles_setKids (k : HTree) (ks : List HTree) :
     handles (k.setKids ks) = k.handle :: handlesList ks := by
@@ -310,7 +310,7 @@ theorem placeFirst_perm {f : Forest} {p : Nat} (t : HTree) (nd : f.allHandles.No
   refine List.Perm.append_left _ (List.Perm.append_left _ (List.Perm.cons _ ?_))
   refine List.perm_append_comm.trans ?_
   simp only [List.append_assoc]
-  exact List.Perm.append_left _ (List.Perm.append_left _ List.perm_append_comm)
+  exact List.Perm.refl _
 
 /-- `spliceOut` removes exactly the handle `h` (its children stay). -/
 theorem spliceOut_perm {f : Forest} {h : Nat} (nd : f.allHandles.Nodup) (hl : f.isLive h = true) :
@@ -327,8 +327,8 @@ theorem spliceOut_perm {f : Forest} {h : Nat} (nd : f.allHandles.Nodup) (hl : f.
     simp only [handlesList_append, handlesList_cons, List.append_assoc, handles_eq k, lc.hk,
       List.cons_append]
     refine List.Perm.append_left _ (List.Perm.append_left _ ?_)
-    refine List.perm_append_comm.trans ?_
-    simp
+    rw [← List.append_assoc]
+    exact List.perm_append_comm
   cases path with
   | cons fr rest =>
     rw [spliceOut_of_loc_cons lc nd]
